@@ -522,6 +522,20 @@ func (s *Sim) reconfigure(client string, a Action) {
 		defer cancel()
 	}
 	var applied bool
+	// requests for one processor that overlap share the stored configuration (the real server
+	// serializes them): what such a request opens is then not necessarily its own settings
+	rcs := w.or.rc
+	rcs.inflight[procID]++
+	overlapped := rcs.inflight[procID] > 1
+	if overlapped {
+		rcs.tainted[procID] = true
+	}
+	defer func() {
+		rcs.inflight[procID]--
+		if rcs.inflight[procID] == 0 {
+			delete(rcs.tainted, procID)
+		}
+	}()
 	err := s.call(client, "reconfigure", procID+" rev="+rev+" "+a.Note, func(st *Stack) error {
 		inst, err := st.proc.Get(base, procID)
 		if err != nil {
@@ -542,6 +556,9 @@ func (s *Sim) reconfigure(client string, a Action) {
 		}
 		return err
 	})
+	if overlapped || rcs.tainted[procID] {
+		openFail = false
+	}
 	w.or.onReconfigureResult(w, procID, rev, openFail, cancelled, applied, err)
 	if applied {
 		// the instance must still count as running: an ordinary update is refused while the pipeline runs
